@@ -88,3 +88,20 @@ Definition T_nextPacketID : Prop := forall c : N,
   c < 2 ^ 64 ->
   go_message_nextPacketID (Z.of_N c) =
   Some (Z.of_N (snd (next_pid c)), Z.of_N (fst (next_pid c) mod 2 ^ 64)).
+
+(* header.decode (with the methods Type, Flags, Valid, DefaultFlags and the function ValidQos it calls, all translated)
+   = Codec.Impl.hdr_decode, for a header whose type/flags byte is present: never panics; on success the bytes consumed
+   and every field of the header agree with the model; on an error the count agrees *)
+Definition T_header_decode : Prop := forall (h : hdr) (src : bytes),
+  bytes_ok src = true -> tf h < 256 ->
+  hdr_decode h src <> Panic /\
+  match hdr_decode h src with
+  | Ok (h', n) =>
+      go_message_decode (zb (dbuf h)) (dirty h) [Z.of_N (tf h)] (Z.of_N (remlen h)) (zb src) =
+      Some (Z.of_nat n, false, zb (dbuf h'), dirty h', [Z.of_N (tf h')], Z.of_N (remlen h'))
+  | Err _ n =>
+      exists d di m r,
+        go_message_decode (zb (dbuf h)) (dirty h) [Z.of_N (tf h)] (Z.of_N (remlen h)) (zb src) =
+        Some (Z.of_nat n, true, d, di, m, r)
+  | Panic => False
+  end.
